@@ -21,7 +21,7 @@ from .par import pmap
 SQL = "DROP TABLE v0\n"
 _MARK = re.compile(r"\bv(\d+)(\+?)")
 _RULES: Dict[Any, Any] = {}
-_ENV: Dict[int, Any] = {}
+_ENV: Dict[Any, Any] = {}
 
 
 def _rule_class(idx: int):
@@ -53,13 +53,16 @@ def _rule_class(idx: int):
     return cls
 
 
-def _env(limit: int):
-    if limit not in _ENV:
+def _env(limit: int, feu: bool = False):
+    """`feu` = fix_even_unparsable.  The model's input parses cleanly, so by FixLoop's contract (validation of a
+    fixed section is waived only where the section was *already* unparsable) the flag must not change any
+    behaviour: every emitted behaviour is replayed under one value of it, alternating."""
+    if (limit, feu) not in _ENV:
         from sqlfluff.core import FluffConfig, Linter
 
-        cfg = FluffConfig(overrides={"dialect": "ansi", "runaway_limit": limit})
-        _ENV[limit] = (cfg, Linter(config=cfg))
-    return _ENV[limit]
+        cfg = FluffConfig(overrides={"dialect": "ansi", "runaway_limit": limit, "fix_even_unparsable": feu})
+        _ENV[(limit, feu)] = (cfg, Linter(config=cfg))
+    return _ENV[(limit, feu)]
 
 
 def _pack(rec: dict):
@@ -87,7 +90,7 @@ def replay_one(item) -> dict:
     """Run the real loop twice on one emitted behaviour; returns the trace plus the observation."""
     idx, rec = item
     fixrec.quiet_logs()
-    cfg, lnt = _env(rec["limit"])
+    cfg, lnt = _env(rec["limit"], feu=bool(rec.get("feu", idx % 2)))
     tree = lnt.parse_string(SQL).root_variant().tree
     pack = _pack(rec)
     tb = fixrec.Tables()
@@ -274,11 +277,11 @@ def replay_and_decide(rep: Report, records: List[dict], tier: str, seed: int) ->
     rep.evaluated(2 * len(outs))
     live = []
     for o in outs:
-        rec = records[o["idx"]]
+        rec = dict(records[o["idx"]], feu=bool(o["idx"] % 2))
         t = o["trace"]
         if t["status"] != "ok":
             rep.violation("EngineRaises", {"level": "engine", "exc": t["status"].split(":")[1]},
-                          f"lint_fix_parsed raised {t['status']} for rule pack {rec['rules']} limit {rec['limit']}",
+                          f"lint_fix_parsed raised {t['status']} for rule pack {rec['rules']} limit {rec['limit']} fix_even_unparsable={rec['feu']}",
                           {"kind": "engine", "rec": rec})
             continue
         live.append(t)
@@ -292,10 +295,10 @@ def replay_and_decide(rep: Report, records: List[dict], tier: str, seed: int) ->
     by = {t["id"]: t for t in live}
     for r in val.rejected:
         t = by[r["id"]]
-        rec = records[int(t["id"][1:])]
+        rec = dict(records[int(t["id"][1:])], feu=bool(int(t["id"][1:]) % 2))
         ev = t["events"][r["step"] - 1]
         rep.violation(r["clause"], {"level": "engine", "limit": rec["limit"]},
-                      f"real lint_fix_parsed with synthetic rules {rec['rules']} (runaway_limit={rec['limit']}) rejected at event "
+                      f"real lint_fix_parsed with synthetic rules {rec['rules']} (runaway_limit={rec['limit']}, fix_even_unparsable={rec['feu']}) rejected at event "
                       f"{r['step']} {ev}: {r['clause']}", {"kind": "engine", "rec": rec, "verdict": r})
     mid = records[len(records) // 2]
     rep.sample({"engine_behaviour": {"rules": mid["rules"], "limit": mid["limit"], "predicted": mid["pred"], "contract": mid["contract"]}})
